@@ -10,6 +10,8 @@
 #include <kernel/assembly/common_operators.hpp>
 #include <kernel/assembly/domain_assembler_helpers.hpp>
 #include <kernel/space/lagrange2/element.hpp>
+#include <kernel/space/lagrange1/element.hpp>
+#include <kernel/space/cro_rav_ran_tur/element.hpp>
 #include <control/stokes_blocked.hpp>
 
 #include <cmath>
@@ -35,7 +37,13 @@ namespace
   typedef Geometry::ConformalMesh<FEAT::Shape::Hypercube<2>> MeshType;
   typedef Trafo::Standard::Mapping<MeshType> TrafoType;
   typedef Space::Lagrange2::Element<TrafoType> SpaceVeloType;
+#ifdef STOKES_PRES_CRRT
+  // edge-based pressure space: its gate has other neighbours than the velocity gate (ranks that share only a vertex are
+  // neighbours for Lagrange-2 but not for the edge DOFs), so the tuple gate has to pair mirrors of different rank lists
+  typedef Space::CroRavRanTur::Element<TrafoType> SpacePresType;
+#else
   typedef Space::Lagrange1::Element<TrafoType> SpacePresType;
+#endif
   typedef Control::Domain::StokesDomainLevel<MeshType, TrafoType, SpaceVeloType, SpacePresType> DomainLevelType;
   typedef wc::SimPDC<DomainLevelType> DomainType;
   typedef Control::StokesBlockedSystemLevel<2, double, Index> SystemLevelType;
@@ -176,7 +184,11 @@ namespace
   }
 }
 
+#ifdef STOKES_PRES_CRRT
+HarnessInfo harness_info() { return {"C13", "c13_stokes_crrt", 60000000}; }
+#else
 HarnessInfo harness_info() { return {"C13", "c13_stokes", 60000000}; }
+#endif
 void harness_process_init(int argc, char** argv) { Runtime::initialize(argc, argv); }
 
 std::string harness_run()
@@ -202,6 +214,10 @@ std::string harness_run()
     {
       long n1 = (1l << l) + 1;
       long verts = (w.mesh == 0) ? n1 * n1 : 3 * (1l << (2 * l)) + 4 * (1l << l) + 1;
+#ifdef STOKES_PRES_CRRT
+      const long cells = (w.mesh == 0 ? 1l : 3l) * (1l << (2 * l));
+      verts = verts + cells - 1;   // number of edges of a simply connected planar mesh (Euler)
+#endif
       if(long(all.size()) == verts) { ref_lvl = l; break; }
     }
   }
